@@ -2,7 +2,6 @@ package main
 
 import (
 	"fmt"
-	"os"
 	"go/types"
 	"strings"
 
@@ -291,13 +290,16 @@ func (e *Engine) builtin(st *State, b *ssa.Builtin, args []Value, retTo *ssa.Cal
 type Handler func(e *Engine, st *State, fn *ssa.Function, args []Value, retTo *ssa.Call) (Value, bool)
 
 var exact = map[string]Handler{}
+
+// optional summaries of pure repo functions (enabled per run with -summary, listed in the evidence)
+var summaries = map[string]bool{}
 var prefixes = []struct {
 	p string
 	h Handler
 }{}
 
 func (e *Engine) findIntercept(fn *ssa.Function, name string) Handler {
-	if os.Getenv("SYMGO_NO_SUMMARY") != "" && strings.HasSuffix(name, "vaa.VAAID).Bytes") {
+	if strings.HasSuffix(name, "vaa.VAAID).Bytes") && !summaries["vaaid"] {
 		return nil
 	}
 	if i := strings.Index(name, "/pkg/zzverif."); i >= 0 {
